@@ -1732,7 +1732,11 @@ namespace bloch::runtime {
                     break;
             }
         }
-        Value ret = m_returnValue;
+        // Hand the result over instead of copying it: a copy left behind in m_returnValue would
+        // keep a returned object alive until the next call (or until teardown, where destructors
+        // and @tracked fields are no longer recorded).
+        Value ret = std::move(m_returnValue);
+        m_returnValue = {};
         stampStaticClass(ret, method->decl->returnType.get(), method->owner);
         endScope();
         m_hasReturn = prevReturn;
@@ -1762,7 +1766,9 @@ namespace bloch::runtime {
                     break;
             }
         }
-        Value ret = m_returnValue;
+        // See callMethod: the result is handed over, not left behind in m_returnValue.
+        Value ret = std::move(m_returnValue);
+        m_returnValue = {};
         stampStaticClass(ret, fn->returnType.get(), nullptr);
         endScope();
         m_hasReturn = prevReturn;
